@@ -138,6 +138,8 @@ def units():
                                       ('ctor__r' + V, CP, True), ('ctor__r%s_r%s' % (V, al), CP, True),
                                       ('ctor__rr' + V, ['C01', 'C02', 'C05', 'C06', 'C07'], False), ('ctor__rr%s_r%s' % (V, al), ['C01', 'C02', 'C05', 'C06', 'C07'], False),
                                       ('dtor__v', ['C02', 'C06'], False), ('op_assign__r' + V, CP, True)]:
+                    if m == 'dtor__v' and fl == 'static' and elem == 'ElemTC':
+                        continue        # FixedCapacityVector of a trivially destructible type is itself trivially destructible: no destructor exists
                     pp = [p for p in props if not (fl == 'static' and p in ('C06', 'C18')) and not (fl == 'std' and p == 'C05')]
                     short = m.replace('__', '_').replace(V, 'V')
                     # a fixed-capacity vector of trivially copyable elements cannot fail when it copies a vector of its own type
@@ -216,6 +218,32 @@ def units():
         us[-1]['defs'].update({'WITH_SETS': '1', 'SS_T': 'struct ' + SS, 'SS_N': '4', 'RESULT_KIND': str(rk), 'FINDFUNCTOR_T': 'struct ' + FF,
                                'FINDFUNCTOR_CALL(fp, e)': FF + '__op_call__rE_c(fp, e)',
                                'SETNODE_T': 'struct FlatSet_E_GhostCmp_A_Vector_E_A_u32_Dyn_0__node_type'})
+    # ---- BOUNDED stand-ins (concrete L0, loops unwound up to 'bounded'): merge and bulk paths of the sets.  Never counted as proved.
+    FS8 = 'FlatSet_E_GhostCmp_A_Vector_E_A_u8_Dyn_0'
+    FS32 = 'FlatSet_E_GhostCmp_A_Vector_E_A_u32_Dyn_0'
+    FS32o = 'FlatSet_E_GhostCmp2_A_Vector_E_A_u32_Dyn_0'
+    def bnd(uid, glue, reach, props, extra_defs, bound=6, tier='quick', vimpl='VectorImpl_E_A_u8_f_Dyn'):
+        add(uid, glue, props, 2, 'StdVectorBase_E_A_u8', 'u8', 'ElemNR', tier=tier, throws_reachable=False,
+            extra_source=['harness/bounded_vec_stubs.c', 'harness/bounded_sets.c'],
+            proto='void %s(void)' % glue, extra_reach=reach, bounded=bound, timeout=1800)
+        us[-1]['cfg'] = 'sets17'
+        # callees replaced by their specification (harness/bounded_vec_stubs.c): the vector operations, proved without bound in the op.* units
+        stubs = {'BV_INSERT_RR': vimpl + '__insert__pE_rrE', 'BV_PUSH_BACK_RR': vimpl + '__push_back__rrE', 'BV_ERASE': vimpl + '__erase__pE', 'BV_ERASE_RANGE': vimpl + '__erase__pE_pE',
+                 'BV_INSERT_MOVE_RANGE': vimpl + '__insert__pE_move_iterator_pE_move_iterator_pE', 'BV_INSERT_RANGE': vimpl + '__insert__pE_pE_pE'}
+        us[-1]['stubbed'] = list(stubs.values())
+        us[-1]['defs'] = dict(extra_defs); us[-1]['defs'].update(stubs)
+        us[-1]['defs'].update({'WITH_SETS': '1', 'BN': '2', 'BDOM': '4', 'L0C_MAXN': '5', 'BVIMPL_T': 'struct ' + vimpl})
+        us[-1]['bound_text'] = 'every pre-state with at most 2 elements per set / range, ranks in [0,4), capacities up to size+1, the four comparator flavours (ascending, descending, coarse ascending, coarse descending)'
+    bnd('bnd.fs.merge.u8', 'bs_flatset_merge', [FS8 + '__merge__r' + FS8], ['C03', 'C02', 'C06'],
+        {'BFS_T': 'struct ' + FS8, 'BVEC_T': 'struct StdVectorBase_E_A_u8', 'BFS_MERGE(a, b)': '%s__merge__r%s(a, b)' % (FS8, FS8)})
+    bnd('bnd.fs.merge_other.u32', 'bs_flatset_merge_other', [FS32 + '__merge__r' + FS32o], ['C03', 'C02'], vimpl='VectorImpl_E_A_u32_f_Dyn', extra_defs=
+        {'BFS_T': 'struct ' + FS32, 'BFS_OTHER_T': 'struct ' + FS32o, 'BVEC_T': 'struct StdVectorBase_E_A_u32', 'BFS_MERGE_OTHER(a, b)': '%s__merge__r%s(a, b)' % (FS32, FS32o)})
+    UQ = {'UNIQUE_PRED_T': 'struct %s__ValueEqui' % FS8, 'UNIQUE_PRED_CALL(fp, a, b)': '%s__ValueEqui__op_call__rE_rE_c(fp, a, b)' % FS8}
+    bnd('bnd.fs.insert_range.u8', 'bs_flatset_insert_range', [FS8 + '__insert__pE_pE', FS8 + '__ValueEqui__op_call__rE_rE_c'], ['C03', 'C02', 'C20'],
+        dict(UQ, **{'BFS_T': 'struct ' + FS8, 'BVEC_T': 'struct StdVectorBase_E_A_u8', 'BFS_INSERT_RANGE(s, f, l)': '%s__insert__pE_pE(s, f, l)' % FS8}))
+    bnd('bnd.fs.from_vector.u8', 'bs_flatset_from_vector', [FS8 + '__ctor__rrVector_E_A_u8_Dyn_0_rGhostCmp_rA', FS8 + '__ValueEqui__op_call__rE_rE_c'], ['C03', 'C02'],
+        dict(UQ, **{'BFS_T': 'struct ' + FS8, 'BVEC_T': 'struct StdVectorBase_E_A_u8', 'BFS_VECTOR_T': 'struct Vector_E_A_u8_Dyn_0',
+                    'BFS_FROM_VECTOR(s, v, c)': '{ struct A bs_al = {0}; %s__ctor__rrVector_E_A_u8_Dyn_0_rGhostCmp_rA(s, v, c, &bs_al); }' % FS8}))
     for sz in ('u8',):
         add('SafeNextCapacity.%s' % sz, 'SafeNextCapacity__%s_u64_b' % sz, ['C08', 'C18'], 1, svb('ElemNR', sz), sz, 'ElemNR')
     add('ExceptionGrowingPolicy.Check', 'Exc__Check__u64_u64', ['C08'], 1, svb('ElemNR', 'u8'), 'u8', 'ElemNR')
